@@ -81,15 +81,15 @@ theorem validFields_of_seconds (t : Int) (hy : 1 ≤ (fieldsOfSeconds t).y) (hy'
   simp only [validFields, validDate, Bool.and_eq_true, decide_eq_true_eq]
   exact ⟨⟨⟨⟨⟨⟨⟨⟨⟨⟨⟨hy, hy'⟩, a⟩, b⟩, c⟩, d⟩, e⟩, f⟩, g⟩, h⟩, i⟩, j⟩
 
-/-- the parser reads back what the formatter writes (character level) -/
-theorem parseChars_formatChars (t : Int) (hy : 1000 ≤ (fieldsOfSeconds t).y)
-    (hy' : (fieldsOfSeconds t).y ≤ 9999) : parseChars (formatChars t) = some t := by
+/-- the parser reads back what the formatter writes (character level, canonical form) -/
+theorem parseCanon_formatChars (t : Int) (hy : 1000 ≤ (fieldsOfSeconds t).y)
+    (hy' : (fieldsOfSeconds t).y ≤ 9999) : parseCanon (formatChars t) = some t := by
   obtain ⟨a, b, c, d, e, f, g, h, i, j⟩ := fieldsOfSeconds_ranges t
   have hd31 : (fieldsOfSeconds t).d ≤ 31 := by
     have := (monthLen_le (isLeap (fieldsOfSeconds t).y) (fieldsOfSeconds t).mo)
     rw [daysInMonth_eq] at d; omega
   have hw := weekday_spec_aux (t / 86400)
-  simp only [formatChars, parseChars, punct_ok, ↓reduceIte]
+  simp only [formatChars, parseCanon, punct_ok, ↓reduceIte]
   rw [wdOfName_wdName hw.1 hw.2.1, num2_digits (by omega) (by omega), monOfName_monName a b,
     num4_digits (by omega) (by omega), num2_digits e (by omega), num2_digits g (by omega),
     num2_digits i (by omega)]
@@ -100,6 +100,54 @@ theorem parseChars_formatChars (t : Int) (hy : 1000 ≤ (fieldsOfSeconds t).y)
     else none) = some t
   rw [hv]
   simp only [↓reduceIte, hs]
+
+theorem formatChars_length (t : Int) : (formatChars t).length = 29 := rfl
+
+theorem parseChars_of_length {l : List Char} (h : l.length ≠ 28) : parseChars l = parseCanon l := by
+  simp only [parseChars, h, ↓reduceIte]
+
+/-- the parser reads back what the formatter writes (character level) -/
+theorem parseChars_formatChars (t : Int) (hy : 1000 ≤ (fieldsOfSeconds t).y)
+    (hy' : (fieldsOfSeconds t).y ≤ 9999) : parseChars (formatChars t) = some t := by
+  rw [parseChars_of_length (by rw [formatChars_length]; decide)]
+  exact parseCanon_formatChars t hy hy'
+
+theorem padDay_length {l : List Char} (h : l.length = 28) : (padDay l).length = 29 := by
+  simp only [padDay, List.length_append, List.length_take, List.length_cons, List.length_drop, h]
+  decide
+
+theorem padDay_get5 {l : List Char} (h : 5 ≤ l.length) : (padDay l)[5]? = some '0' := by
+  unfold padDay
+  rw [List.getElem?_append_right (by simp only [List.length_take]; omega)]
+  simp only [List.length_take]
+  rw [show 5 - min 5 l.length = 0 by omega]
+  rfl
+
+theorem eraseIdx_padDay {l : List Char} (h : 5 ≤ l.length) : (padDay l).eraseIdx 5 = l := by
+  unfold padDay
+  rw [List.eraseIdx_append_of_length_le (by simp only [List.length_take]; omega)]
+  simp only [List.length_take]
+  rw [show 5 - min 5 l.length = 0 by omega]
+  simp only [List.eraseIdx_zero, List.tail_cons, List.take_append_drop]
+
+/-- putting the zero back into the un-padded rendering of a day 1..9 gives the canonical rendering -/
+theorem padDay_unpadChars (t : Int) (hd : (fieldsOfSeconds t).d < 10) (hd0 : 0 ≤ (fieldsOfSeconds t).d) :
+    padDay (unpadChars t) = formatChars t := by
+  have hz : digit ((fieldsOfSeconds t).d / 10) = '0' := by
+    rw [show (fieldsOfSeconds t).d / 10 = 0 by omega]; rfl
+  simp only [unpadChars, formatChars]
+  rw [hz]
+  rfl
+
+/-- the parser reads the un-padded rendering of a day 1..9 as the same instant (character level) -/
+theorem parseChars_unpadChars (t : Int) (hy : 1000 ≤ (fieldsOfSeconds t).y)
+    (hy' : (fieldsOfSeconds t).y ≤ 9999) (hd : (fieldsOfSeconds t).d < 10) :
+    parseChars (unpadChars t) = some t := by
+  have hl : (unpadChars t).length = 28 := rfl
+  have hd0 := (fieldsOfSeconds_ranges t).2.2.1
+  simp only [parseChars, hl, ↓reduceIte]
+  rw [padDay_unpadChars t hd (by omega)]
+  exact parseCanon_formatChars t hy hy'
 
 /-! ### the zone table -/
 
